@@ -14,17 +14,45 @@ cancellation at any point / Unlock ran before — provided no provider was shut 
 theorem no_residue (c : Cfg) (s : St) (h : Reach c false false s) (hq : Quiescent s)
     (hd : ∀ p, s.done p = false) :
     s.lrec = none ∧ ∀ l, s.token l = true ∧ s.cntr l = 0 :=
-  sorry
+  by
+  have hi := Reach_Inv c false s h
+  have hl := Reach_ILive c s h
+  have htok : ∀ l, s.token l = true := by
+    intro l
+    cases ht : s.token l with
+    | true => rfl
+    | false =>
+      rcases hi.tokBack l ht with hd' | ⟨g, _, hg⟩
+      · rw [hd] at hd'; cases hd'
+      · have hq' := hq g
+        rw [hq'.1, hq'.2] at hg
+        simp at hg
+  refine ⟨?_, fun l => ⟨htok l, hi.tokCnt l (htok l)⟩⟩
+  cases hr : s.lrec with
+  | none => rfl
+  | some r =>
+    obtain ⟨g, _, hg⟩ := hl r hr
+    have hq' := hq g
+    rw [hq'.1, hq'.2] at hg
+    simp at hg
 
 /-- the token of a Locker is away exactly while one of its goroutines is in the section (no shutdown) -/
 theorem token_exact (c : Cfg) (s : St) (h : Reach c false false s) (hd : ∀ p, s.done p = false) (l : L) :
     s.token l = false ↔ ∃ g, c.lk g = l ∧ InSection s g :=
-  sorry
+  by
+  have hi := Reach_Inv c false s h
+  constructor
+  · intro ht
+    rcases hi.tokBack l ht with hd' | ⟨g, hg, hs⟩
+    · rw [hd] at hd'; cases hd'
+    · exact ⟨g, hg, (inSection_iff s g).2 hs⟩
+  · rintro ⟨g, rfl, hs⟩
+    exact hi.secTok g ((inSection_iff s g).1 hs)
 
 /-- a record exists only while somebody holds or is unlocking (fault-free runs have no orphans) -/
 theorem record_has_live_owner (c : Cfg) (s : St) (h : Reach c false false s) (r : Rec) (hr : s.lrec = some r) :
     ∃ g, r.owner = some g ∧ (s.holds g = true ∨ s.pc g = .uCancel ∨ s.pc g = .uDelete) :=
-  sorry
+  Reach_ILive c s h r hr
 
 /-- a step taken by a goroutine that is inside a call (not a call step, not an environment step) -/
 def Internal (c : Cfg) (s t : St) : Prop :=
@@ -35,27 +63,47 @@ caller inside a call can take a step — nobody is waiting for an event that can
 theorem no_deadlock (c : Cfg) (s : St) (h : Reach c false false s)
     (hnh : ∀ g, s.holds g = false) (hw : ∃ g, s.pc g ≠ .idle) (hd : ∀ p, s.done p = false) :
     ∃ t, Internal c s t :=
-  sorry
+  by
+  obtain ⟨g, hg⟩ := hw
+  have hi := Reach_Inv c false s h
+  exact moves c s hi.tokCnt hi.tokBack (Reach_ILive c s h) hnh hd g hg
 
 /-- after a successful Delete of the holder every parked waiter can return from its wait and the
 next Create succeeds: the hand-off cannot be missed -/
 theorem handoff (c : Cfg) (s : St) (g : G) (v : Nat) (hw : s.pc g = .lWait v) (hr : s.lrec = none) :
-    (∃ t, Step c false false s t ∧ t.pc g = (if s.ctxDone g then .lFail else .lCreate)) ∧
-    (s.pc g = .lCreate → ∃ t, Step c false false s t ∧ t.holds g = true) :=
-  sorry
+    ∃ t₁, Step c false false s t₁ ∧ t₁.pc g = (if s.ctxDone g then .lFail else .lCreate) ∧ t₁.lrec = none ∧
+      (s.ctxDone g = false → ∃ t₂, Step c false false t₁ t₂ ∧ t₂.holds g = true) :=
+  by
+  refine ⟨_, Step.lWaitRet s g v false (by simp) hw (Or.inr (Or.inr (Or.inl hr))), by simp [upd], hr, ?_⟩
+  intro hcd
+  exact ⟨_, Step.lCreateOk _ g (by simp [upd, hcd]) hr, by simp [upd]⟩
 
 /-- C04.after_shutdown_no_acquire (one-step form; `done` is monotone): an attempt standing at the
 select after its provider was shut down never gets past it. -/
 theorem after_shutdown_no_acquire (c : Cfg) (w f : Bool) (s t : St) (st : Step c w f s t) (g : G)
     (hd : s.done (c.pv (c.lk g)) = true) (hp : s.pc g = .lSelect ∨ s.pc g = .tSelect) :
     (t.pc g = s.pc g ∨ t.pc g = .idle) ∧ t.holds g = s.holds g ∧ t.done (c.pv (c.lk g)) = true :=
-  sorry
+  by
+  cases st <;> (try split) <;> simp_all [upd] <;> grind
 
 /-- C04.cancel_returns: a LockWithCtx whose context is done leaves the select / the retry loop
 through the failure path, and the failure path puts counter and token back. -/
 theorem fail_path_restores (c : Cfg) (w f : Bool) (s t : St) (st : Step c w f s t) (g : G)
     (hp : s.pc g = .lFail ∨ s.pc g = .tFail) (hg : t.pc g ≠ s.pc g) :
-    t.pc g = .idle ∧ t.token (c.lk g) = true ∧ t.cntr (c.lk g) = 0 ∧ t.holds g = false ∨ s.holds g = true :=
-  sorry
+    t.pc g = .idle ∧ t.token (c.lk g) = true ∧ t.cntr (c.lk g) = 0 ∧ t.holds g = s.holds g :=
+  by
+  cases st <;> (try split) <;> simp_all [upd] <;> grind
+
+/-- a goroutine on the failure path or at the select is not holding (holders are at `idle`) -/
+theorem fail_path_not_holding (c : Cfg) (faults : Bool) (s : St) (h : Reach c false faults s) (g : G)
+    (hp : s.pc g = .lFail ∨ s.pc g = .tFail ∨ s.pc g = .lSelect ∨ s.pc g = .tSelect) :
+    s.holds g = false :=
+  by
+  cases hh : s.holds g with
+  | false => rfl
+  | true =>
+    have hi := (Reach_Inv c faults s h).idle g hh
+    rw [hi] at hp
+    simp at hp
 
 end C04
